@@ -25,6 +25,9 @@ __defined_functions = {}
 __definition_node_ids = set()
 # Stores the sorts for all declared or defined symbols
 __sort_lookup = {}
+# names of recursive functions and of constructors/selectors of parametric
+# datatypes: declared symbols about which nothing else is recorded
+__other_symbols = set()
 # Stores indices that should not be replaced by constants
 __indices = set()
 # Caches calls to get_sort
@@ -44,6 +47,7 @@ def collect_information(exprs):  # noqa: C901
     global __defined_functions
     global __definition_node_ids
     global __sort_lookup
+    global __other_symbols
     global __indices
     global __datatypes_constants
     global __datatypes_constructors
@@ -100,6 +104,21 @@ def collect_information(exprs):  # noqa: C901
             __definition_node_ids.add(cmd[1].id)
             __definition_node_ids.add(cmd[4].id)
             __sort_lookup[cmd[1].data] = cmd[3]
+        if name == 'define-fun-rec' and len(cmd) > 1 and cmd[1].is_leaf():
+            __other_symbols.add(cmd[1].data)
+        if name == 'define-funs-rec' and len(cmd) > 1 \
+           and not cmd[1].is_leaf():
+            __other_symbols.update(
+                decl[0].data for decl in cmd[1]
+                if not decl.is_leaf() and len(decl) > 0 and decl[0].is_leaf())
+        if name in ['declare-datatype', 'declare-datatypes'] and len(cmd) == 3:
+            # parametric datatypes: (par (X ..) (constructor ..))
+            for n in nodes.dfs(cmd[2], max_depth=2):
+                if is_operator_app(n, 'par') and len(n) == 3 \
+                   and not n[2].is_leaf():
+                    __other_symbols.update(
+                        x.data for constr in n[2] for x in nodes.dfs(constr)
+                        if x.is_leaf())
         if name == 'declare-datatype':
             if not len(cmd) == 3:
                 logging.trace(
@@ -198,6 +217,7 @@ def reset_information():
     global __defined_functions
     global __definition_node_ids
     global __sort_lookup
+    global __other_symbols
     global __indices
     global __get_sort_cache
     global __datatypes_constants
@@ -207,6 +227,7 @@ def reset_information():
     __defined_functions = {}
     __definition_node_ids = set()
     __sort_lookup = {}
+    __other_symbols = set()
     __indices = set()
     __get_sort_cache = {}
     __datatypes_constants = {}
@@ -281,6 +302,7 @@ def is_declared_symbol(node):
     ``collect_information``.
     """
     return node.is_leaf() and (node.data in __sort_lookup
+                               or node.data in __other_symbols
                                or node in __datatypes_constructors
                                or node in __datatypes_selectors)
 
